@@ -109,6 +109,16 @@ struct Model {
     last_rdata_name: Option<RName>,
     pointers: Vec<(HintPointer, RName)>,
     ever_not_disabled: bool,
+    // stale hints: pointers handed out for records that were cleared or rolled back since, with
+    // their numeric values; and what is known about where the records start and the cursor is
+    stale: Vec<(HintPointer, usize)>,
+    rr_start_known: Option<usize>,
+    cursor_known: Option<usize>,
+}
+
+/// The numeric value of a hint pointer (its accessor is private; `Debug` prints it).
+fn pointer_value(p: HintPointer) -> usize {
+    format!("{:?}", p).chars().filter(|c| c.is_ascii_digit()).collect::<String>().parse().unwrap_or(0)
 }
 
 impl Model {
@@ -277,6 +287,9 @@ fn run_program(rng: &mut Rng, allow_signing: bool) -> Outcome {
         last_rdata_name: None,
         pointers: vec![],
         ever_not_disabled: false,
+        stale: Vec::new(),
+        rr_start_known: None,
+        cursor_known: None,
     };
     let mut log: Vec<String> = vec![format!("new(buf {}, limit {})", buf_len, init_limit)];
     let mut problems: Vec<(String, String)> = Vec::new();
@@ -362,6 +375,8 @@ fn run_program(rng: &mut Rng, allow_signing: bool) -> Outcome {
                             m.first_qname = Some(name.clone());
                         }
                         m.questions.push((name, qt, qc, m.mode));
+                        m.rr_start_known = None;
+                        m.cursor_known = None;
                     }
                     Err(e) => {
                         let fits = m.uncompressed() + name.wire_len() + 4 + m.reserved() <= m.limit_lb;
@@ -382,11 +397,33 @@ fn run_program(rng: &mut Rng, allow_signing: bool) -> Outcome {
                     _ => 3,
                 };
                 let padding = pad.take();
-                let section = if padding.is_some() { 1u8 } else { section };
-                let (class, rtype) = if padding.is_some() { (C_IN, 99) } else { *rng.pick(&REC_TYPES) };
-                let n_rdatas = if padding.is_none() && rng.chance(1, 3) { rng.range(1, 4) } else { 1 };
-                let as_set = n_rdatas > 1 || (padding.is_none() && rng.chance(1, 4));
-                let owner = if padding.is_some() { RName::root() } else { pool_name(rng) };
+                // Stale hints. A hint pointer outlives clear_rrs() and a rolled-back add; the writer
+                // promises to check that the prior occurrence exists, so a stale pointer at or beyond
+                // the cursor must be ignored. `probe`: the first record after the questions has a root
+                // owner and an NS target no other name shares a suffix with, so its hint pointer tells
+                // where the records start. `land`: once that is known and the records were cleared, a
+                // root-owned opaque record of the right size puts the cursor exactly on a stale pointer.
+                let mut probe: Option<RName> = None;
+                let mut land: Option<usize> = None;
+                if padding.is_none() {
+                    if m.section == 0 && m.rr_start_known.is_none() {
+                        if rng.chance(1, 3) {
+                            probe = Some(RName::simple(&format!("probe{}.hint-probe{}.", rng.below(1000), rng.below(1000))));
+                        }
+                    } else if let Some(c) = m.cursor_known {
+                        if let Some((_, v)) = m.stale.iter().find(|(_, v)| *v >= c + 11 && *v - c - 11 < 400) {
+                            if rng.chance(1, 2) {
+                                land = Some(*v - c - 11);
+                            }
+                        }
+                    }
+                }
+                let directed = probe.is_some() || land.is_some();
+                let section = if padding.is_some() { 1u8 } else if directed { m.section.max(1) } else { section };
+                let (class, rtype) = if padding.is_some() || land.is_some() { (C_IN, 99) } else if probe.is_some() { (C_IN, T_NS) } else { *rng.pick(&REC_TYPES) };
+                let n_rdatas = if padding.is_none() && !directed && rng.chance(1, 3) { rng.range(1, 4) } else { 1 };
+                let as_set = n_rdatas > 1 || (padding.is_none() && !directed && rng.chance(1, 4));
+                let owner = if padding.is_some() || directed { RName::root() } else { pool_name(rng) };
                 let ttl = match rng.below(6) {
                     0 => 0,
                     1 => 0x7fff_ffff,
@@ -396,7 +433,11 @@ fn run_program(rng: &mut Rng, allow_signing: bool) -> Outcome {
                 let rdatas: Vec<Vec<u8>> = match padding {
                     // header 12 + root owner 1 + fixed fields 10 + RDATA = offset of the next name
                     Some(target) => vec![vec![0u8; target - 23]],
-                    None => (0..n_rdatas).map(|_| gen_rdata(rng, class, rtype)).collect(),
+                    None => match (&probe, land) {
+                        (Some(n), _) => vec![n.wire()],
+                        (_, Some(len)) => vec![vec![0u8; len]],
+                        _ => (0..n_rdatas).map(|_| gen_rdata(rng, class, rtype)).collect(),
+                    },
                 };
                 // hint obeying the API contract
                 let mut hint = Hint::None;
@@ -428,10 +469,21 @@ fn run_program(rng: &mut Rng, allow_signing: bool) -> Outcome {
                     }
                     _ => {}
                 }
+                if directed {
+                    hint = Hint::None;
+                    hint_label = "None";
+                } else if let (Some(c), None) = (m.cursor_known, padding) {
+                    let cands: Vec<(HintPointer, usize)> = m.stale.iter().filter(|(_, v)| *v >= c).cloned().collect();
+                    if !cands.is_empty() && rng.chance(1, 2) {
+                        let pick = cands.iter().find(|(_, v)| *v == c).cloned().unwrap_or(cands[rng.below(cands.len())]);
+                        hint = Hint::Explicit(pick.0);
+                        hint_label = if pick.1 == c { "Explicit(stale, exactly at the cursor)" } else { "Explicit(stale, beyond the cursor)" };
+                    }
+                }
                 let owner_q = qname(&owner);
                 let hinted = HintedName::new(hint, &owner_q);
                 let mut hv = HintPointerVec::new();
-                let use_hv = rng.bool();
+                let use_hv = rng.bool() || probe.is_some();
                 let qclass = Class::from(class);
                 let qtype = Type::from(rtype);
                 let qttl = Ttl::from(ttl);
@@ -488,6 +540,20 @@ fn run_program(rng: &mut Rng, allow_signing: bool) -> Outcome {
                         for rd in &actual_rdatas {
                             target.push(MRec { owner: owner.clone(), rtype, class, ttl: if ttl > 0x7fff_ffff { 0 } else { ttl }, rdata: rd.clone(), mode });
                         }
+                        if let Some(n) = &probe {
+                            // the first record after the questions: root owner, fixed fields, target
+                            match hv.get(0).map(pointer_value) {
+                                Some(v) if v >= 23 => {
+                                    m.rr_start_known = Some(v - 11);
+                                    m.cursor_known = Some(v + n.wire_len());
+                                }
+                                _ => m.cursor_known = None,
+                            }
+                        } else if let (Some(len), Some(c)) = (land, m.cursor_known) {
+                            m.cursor_known = Some(c + 11 + len);
+                        } else {
+                            m.cursor_known = None;
+                        }
                         m.section = section;
                         m.last_owner = Some(owner.clone());
                         let mut idx = 0usize;
@@ -504,6 +570,16 @@ fn run_program(rng: &mut Rng, allow_signing: bool) -> Outcome {
                         }
                     }
                     Err(e) => {
+                        // pointers handed out by an add that was rolled back are stale from birth
+                        if use_hv {
+                            for i in 0..16 {
+                                if let Some(p) = hv.get(i) {
+                                    if m.stale.len() < 48 {
+                                        m.stale.push((p, pointer_value(p)));
+                                    }
+                                }
+                            }
+                        }
                         let fits = m.uncompressed() + size + m.reserved() <= m.limit_lb;
                         if order_ok && all_valid && fits && matches!(e, WErr::Truncation) {
                             problems.push(("c12:needless-truncation:record".into(), format!("record of uncompressed size {} rejected with Truncation although {} + {} + reserved {} <= limit {}", size, m.uncompressed(), size, m.reserved(), m.limit_lb)));
@@ -523,7 +599,12 @@ fn run_program(rng: &mut Rng, allow_signing: bool) -> Outcome {
                 m.section = 0;
                 m.last_owner = None;
                 m.last_rdata_name = None;
-                m.pointers.clear();
+                for (p, _) in m.pointers.drain(..) {
+                    if m.stale.len() < 48 {
+                        m.stale.push((p, pointer_value(p)));
+                    }
+                }
+                m.cursor_known = m.rr_start_known;
             }
             74..=78 => {
                 let payload = rng.u16();
@@ -783,6 +864,10 @@ fn judge(o: &Outcome) -> Vec<(String, String)> {
         Ok(d) => d,
         Err(e) => {
             out.push(("c12:undecodable".into(), format!("finished message does not decode: {}", e)));
+            if e.contains("BadPointer") {
+                // the reference decoder met a pointer that does not point strictly backwards
+                out.push(("c13:pointer-not-backwards".into(), format!("finished message does not decode: {}", e)));
+            }
             return out;
         }
     };
@@ -975,6 +1060,10 @@ pub fn run(ctx: &Ctx, rep: &mut Report, prop: &str) {
         rep.eval();
         match result {
             Err(p) => {
+                if prop == "c13" && p.message.contains("invalid pointer found during compression") {
+                    // the writer's own scan of the names it wrote earlier met a pointer that is not valid
+                    rep.violation("c13:writer-met-invalid-pointer-in-its-own-output".to_string(), format!("writer program panicked at {}: {} (case {})", p.location, p.message, case), Json::Null);
+                }
                 if prop == "c12" {
                     rep.violation(format!("c12:{}", p.signature()), format!("writer program panicked at {}: {} (case {})", p.location, p.message, case), Json::obj(vec![("case", Json::Int(case as i128))]));
                 }
@@ -991,6 +1080,8 @@ pub fn run(ctx: &Ctx, rep: &mut Report, prop: &str) {
                     let n_ptr = decode(&o.message).map(|d| d.records.iter().map(|r| r.owner.pointers.len().min(1) + r.rdata_names.iter().filter(|n| !n.pointers.is_empty()).count()).sum::<usize>()).unwrap_or(0);
                     rep.class(&format!("q{}:an{}:ns{}:ar{}:edns{}:tsig{}:ptr{}:mode{:?}", o.model.questions.len().min(2), o.model.answers.len().min(3), o.model.authorities.len().min(2), o.model.additionals.len().min(2), o.model.edns.is_some() as u8, o.model.tsig.as_ref().map(|t| format!("{:?}", t.kind)).unwrap_or_default(), n_ptr.min(6), o.model.mode));
                     rep.hist_n("pointers-checked", n_ptr as u64);
+                    rep.hist_n("stale-hints:exactly-at-the-cursor", o.log.iter().filter(|l| l.contains("Explicit(stale, exactly") && l.ends_with("Ok(())")).count() as u64);
+                    rep.hist_n("stale-hints:beyond-the-cursor", o.log.iter().filter(|l| l.contains("Explicit(stale, beyond") && l.ends_with("Ok(())")).count() as u64);
                 }
                 if case % 3000 == 1 {
                     rep.sample(|| w.clone());
